@@ -215,6 +215,17 @@ def shapes(tier):
                       "G(OnlyDisplay(i), OnlyDisplay(j))", "[b'D', b'a' + i, b'|', b'D', b'a' + j]", "the implicit placeholder after `{_0:.*}` lands on `_1`: U: Display"))
     out.append(gshape("star_precision_on_indexed_placeholder", D + 'pub enum G<T, U> {\n    #[display("{2:.*}|{:?}", 1, tag, val)]\n    A { tag: U, val: T },\n}', "Display",
                       "G::A { tag: OnlyDebug(i), val: OnlyDisplay(j) }", "[b'D', b'a' + j, b'|', b'?', b'a' + i]", "`{2:.*}` takes its precision from argument 0, `{:?}` is argument 1 = `tag`: U: Debug, T: Display"))
+    # an explicit bound(..) on an item WITHOUT a format string (delegation to the single field) reaches the impl too (fix 9565858): the impl must not
+    # exist for a field type that violates it - a must-not-compile program, decided by rustc
+    from ..shapes import reject_shape
+    out.append(reject_shape("c04", "explicit_bound_without_format_is_enforced",
+                            "pub trait Approved {} pub struct No; impl core::fmt::Display for No { fn fmt(&self, f: &mut core::fmt::Formatter<'_>) -> core::fmt::Result { f.write_str(\"n\") } }\n"
+                            "#[derive(derive_more::Display)] #[display(bound(T: Approved))] pub struct S<T>(pub T);\npub fn f(s: &S<No>) -> &dyn core::fmt::Display { s }",
+                            "`bound(T: Approved)` without a format string must be part of the impl's where-clause", ["impl/src/fmt/display.rs::Expansion::generate_bounds"]))
+    out.append(reject_shape("c04", "explicit_bound_on_attrless_variant_is_enforced",
+                            "pub trait Approved {} pub struct No; impl core::fmt::Display for No { fn fmt(&self, f: &mut core::fmt::Formatter<'_>) -> core::fmt::Result { f.write_str(\"n\") } }\n"
+                            "#[derive(derive_more::Display)] pub enum E<T> { #[display(bound(T: Approved))] A(T), #[display(\"b\")] B }\npub fn f(s: &E<No>) -> &dyn core::fmt::Display { s }",
+                            "variant-level `bound(..)` on a variant without a format string", ["impl/src/fmt/display.rs::Expansion::generate_bounds"]))
     out = [x for x in out if x.name != "c04_enum_shared_with_field"]
     if tier == "quick":
         out = [s for s in out if s.quick]
